@@ -141,7 +141,7 @@ theorem startCore_good (cfg : TagCfg) (s : Sim) (h : Inv s) (t : Nat) :
       exact ⟨s, .requestLexeme .fontCheck, by simp [h1, h2, h3, h4, h5], h, rfl, rfl,
         .inr ⟨.fontCheck, rfl, rfl, h3, by decide⟩⟩
     by_cases h7 : NameHash.isEmpty t = true ∧ s.currentNs = .mathml
-    · exact ⟨s, .requestLexeme .annotationXmlStart, by simp [h1, h2, h3, h4, h5, h6, h7], h, rfl, rfl,
+    · exact ⟨s, .requestLexeme .annotationXmlStart, by simp [h1, h2, h4, h5, h6, h7], h, rfl, rfl,
         .inr ⟨.annotationXmlStart, rfl, rfl, h3, by decide⟩⟩
     · refine ⟨s, .none, by simp [h1, h2, h3, h4, h5, h6, h7], h, rfl, rfl, .inl ⟨?_, ?_⟩⟩
       · intro b hb; cases hb
